@@ -485,14 +485,14 @@ impl<'a> Socket<'a> {
 
                     match r.data {
                         #[cfg(feature = "proto-ipv4")]
-                        RecordData::A(addr) => {
+                        RecordData::A(addr) if pq.type_ == Type::A => {
                             net_trace!("A: {:?}", addr);
                             if addresses.push(addr.into()).is_err() {
                                 net_trace!("too many addresses in response, ignoring {:?}", addr);
                             }
                         }
                         #[cfg(feature = "proto-ipv6")]
-                        RecordData::Aaaa(addr) => {
+                        RecordData::Aaaa(addr) if pq.type_ == Type::Aaaa => {
                             net_trace!("AAAA: {:?}", addr);
                             if addresses.push(addr.into()).is_err() {
                                 net_trace!("too many addresses in response, ignoring {:?}", addr);
@@ -513,6 +513,11 @@ impl<'a> Socket<'a> {
                                 return;
                             }
                         }
+                        // Address records of the type that was not asked for are ignored.
+                        #[cfg(feature = "proto-ipv4")]
+                        RecordData::A(_) => {}
+                        #[cfg(feature = "proto-ipv6")]
+                        RecordData::Aaaa(_) => {}
                         RecordData::Other(type_, data) => {
                             net_trace!("unknown: {:?} {:?}", type_, data)
                         }
